@@ -1329,7 +1329,20 @@ def _capacity_helper_off_by_one(root):
     return False
 
 
+def _undo_r3a_repair(root):
+    # back to: fut.add_done_callback(lambda f: final_callback(f.result()))
+    for n in ast.walk(root):
+        b = getattr(n, "body", None)
+        if isinstance(b, list):
+            for i, st in enumerate(b):
+                if isinstance(st, ast.Expr) and isinstance(st.value, ast.Call) and q.call_attr(st.value) == "add_done_callback":
+                    st.value.args = [parse_expr("lambda f: final_callback(f.result())")]
+                    return True
+    return False
+
+
 MUTANTS = [
+    ("undo the R3-a repair: redirected outcome read with an unprotected f.result()", _in(SH, CONN + ".finish", _undo_r3a_repair), "C09.redirect-completes"),
     ("seeded C09-adv1: cross-origin decision via _origin() helper without the scheme", _in(SH, CONN, _origin_helper_without_scheme), "C09.cross-origin-test"),
     ("method rewrite via helper that forgets the HEAD exemption", _in(SH, CONN, _rewrite_through_helper_dropping_head), "C09.redirect-method-rewrite"),
     ("capacity test via helper with <=", _in(SH, CLIENT, _capacity_helper_off_by_one), "C09.admit-guard"),
